@@ -579,3 +579,196 @@ def target_seed_firsts_round():
 
 TARGETS["first"] = target_first
 TARGETS["seed_firsts_round"] = target_seed_firsts_round
+
+
+# ---------------------------------------------------------------------------------------------------------------------
+# Grammar._closure_of_item (C08: CLOSURE with two memo tables), function under contract instead of bounded comparison only
+# ---------------------------------------------------------------------------------------------------------------------
+_CLOSURE_GRAMMARS = {
+    # name: (productions as (lhs, rhs) in order, start)
+    "left-recursive": [("S", ("S", "a")), ("S", ("b",))],
+    "mutual": [("S", ("A", "x")), ("A", ("B",)), ("B", ("A", "y")), ("B", ("z",))],
+    "nullable-tail": [("S", ("A", "N", "w")), ("A", ("a",)), ("N", ()), ("N", ("n",))],
+    "indirectly-nullable-tail": [("S", ("A", "y")), ("S", ("p", "A", "w")), ("A", ("B", "N")), ("N", ("M",)), ("M", ()), ("M", ("m",)), ("B", ("b",))],
+    "nested-nullable": [("S", ("A", "B", "C")), ("A", ("a",)), ("A", ()), ("B", ("A", "A")), ("C", ("c",)), ("C", ("B", "S"))],
+    "expression": [("E", ("E", "+", "T")), ("E", ("T",)), ("T", ("(", "E", ")")), ("T", ("i",))],
+}
+
+
+def _spec_closure_tables(prods):
+    """Independent specification over plain tuples: FIRST of strings, single-level closure and least closed set."""
+    nts = {l for l, _ in prods}
+    syms = nts | {s for _, r in prods for s in r} | {"$"}
+    first = {s: (set() if s in nts else {s}) for s in syms}
+    nullable = set()
+    changed = True
+    while changed:
+        changed = False
+        for l, r in prods:
+            k = 0
+            for s in r:
+                new = first[s] - first[l]
+                if new:
+                    first[l] |= new
+                    changed = True
+                if s not in nullable:
+                    break
+                k += 1
+            else:
+                if l not in nullable:
+                    nullable.add(l)
+                    changed = True
+
+    def first_of(string):
+        out = set()
+        for s in string:
+            out |= first[s]
+            if s not in nullable:
+                return out, False
+        return out, True
+
+    def step(item):
+        (l, r), dot, la = item
+        if dot >= len(r) or r[dot] not in nts:
+            return set()
+        f, _ = first_of(r[dot + 1:] + (la,))
+        return {((l2, r2), 0, b) for (l2, r2) in prods if l2 == r[dot] for b in f}
+
+    def closure(item):
+        s, work = {item}, [item]
+        while work:
+            for n in step(work.pop()):
+                if n not in s:
+                    s.add(n)
+                    work.append(n)
+        return s
+    return syms - nts, first_of, step, closure
+
+
+def target_closure_of_item():
+    """lr1.Grammar._closure_of_item, body executed by pyvc on ghost grammar objects.  For six structurally different grammars
+    (left recursion, mutual recursion, nullable and INDIRECTLY nullable tails, nested nullables, an expression grammar), every
+    item [A -> u . v, a] of the grammar as root and three memo states (both tables empty / every proper sub-closure already
+    memoised / every second one):
+
+        result == the least set S containing the root such that [A -> u . B v, a] in S, B -> w a production, b in FIRST(v a)
+                  imply [B -> . w, b] in S                                                   (FIRST: callee contract of _first)
+        the memo entry written for the root is that set; memo entries present before are not changed; single-level memo
+        entries written are the one-step sets; the closing `for item in item_list[::-1]` pass only calls _closure_of_item on
+        members of the result (induction hypothesis: that call returns and memoises the closure of its argument)."""
+    lr1 = importlib.import_module("compiler.front_end.lr1")
+    pt = importlib.import_module("compiler.util.parser_types")
+    eng = pyvc.Engine()
+    eng.contract(set, lambda interp, xs=(): set(xs), "set()")
+    per_grammar = {}
+    ncase = 0
+    for gname, prods in sorted(_CLOSURE_GRAMMARS.items()):
+        terms, first_of, step, closure = _spec_closure_tables(prods)
+        P = {p: pt.Production(p[0], p[1]) for p in prods}
+
+        def mk(t):
+            (p, dot, la) = t
+            return lr1.Item(P[p], dot, la, p[1][dot] if dot < len(p[1]) else None)
+        all_items = [(p, d, la) for p in prods for d in range(len(p[1]) + 1) for la in sorted(terms)]
+        item_cache = {(P[p], d, la): mk((p, d, la)) for (p, d, la) in all_items}
+        by_lhs = {}
+        for p in prods:
+            by_lhs.setdefault(p[0], []).append(P[p])
+        res = per_grammar.setdefault(gname, [])
+        # attributes of a real Grammar object that this contract does not specify (e.g. a table added by a later change) are
+        # taken from an object built by the real constructor, so that the ghost is never narrower than the real object
+        try:
+            extras = {k: v for k, v in vars(lr1.Grammar(prods[0][0], [P[p] for p in prods])).items()}
+        except Exception:
+            extras = {}
+        for root in all_items:
+            want = closure(root)
+            for memo_state in ("empty", "all-others", "every-second"):
+                def harness(c, root=root, want=want, memo_state=memo_state):
+                    others = sorted(x for x in want if x != root)
+                    pre = {mk(x): {mk(y) for y in closure(x)} for j, x in enumerate(others) if memo_state == "all-others" or (memo_state == "every-second" and j % 2 == 0)}
+                    pre_copy = {k: set(v) for k, v in pre.items()}
+                    single = {mk(x): {mk(y) for y in step(x)} for j, x in enumerate(others) if memo_state == "every-second" and j % 3 == 0}
+                    single_pre = set(single)
+                    called = []
+
+                    def rec(interp, obj, item):
+                        called.append(item)
+                        t = ((item.production.lhs, tuple(item.production.rhs)), item.dot, item.terminal)
+                        s = {mk(y) for y in closure(t)}
+                        obj.attrs["_closure_of_item_cache"].setdefault(item, s)
+                        return obj.attrs["_closure_of_item_cache"][item]
+
+                    def first(interp, obj, symbols):
+                        f, eps = first_of(tuple(symbols))
+                        return set(f) | ({None} if eps else set())
+                    attrs = {"_closure_of_item_cache": pre, "_single_level_closure_of_item_cache": single, "_productions_by_lhs": by_lhs, "_item_cache": item_cache}
+                    for k, v in extras.items():
+                        attrs.setdefault(k, v)
+                    me = GObj("grammar", methods={"_closure_of_item": rec, "_first": first}, attrs=attrs)
+                    c.covered = True
+                    st, got = pyvc.run_body(c, "compiler.front_end.lr1.Grammar._closure_of_item", [me, mk(root)])
+                    wantset = {mk(x) for x in want}
+                    c.oblige("closure-is-the-least-closed-set", isinstance(got, set) and got == wantset,
+                             detail="%s root=%r memo=%s: got %d items, specified %d; missing %r, extra %r" % (gname, root, memo_state, len(got) if isinstance(got, set) else -1, len(wantset),
+                                                                                                              sorted(map(str, wantset - got))[:3] if isinstance(got, set) else "", sorted(map(str, got - wantset))[:3] if isinstance(got, set) else ""))
+                    c.oblige("root-memoised-with-its-closure", pre.get(mk(root)) == wantset, detail="%s root=%r" % (gname, root))
+                    c.oblige("frame:earlier-memo-entries-unchanged", all(pre.get(k) == v for k, v in pre_copy.items()), detail="%s root=%r" % (gname, root))
+                    c.oblige("single-level-memo-entries-are-the-one-step-sets",
+                             all(v == {mk(y) for y in step(((k.production.lhs, tuple(k.production.rhs)), k.dot, k.terminal))} for k, v in single.items() if isinstance(k, lr1.Item)),
+                             detail="%s root=%r new entries %d" % (gname, root, len(set(single) - single_pre)))
+                    c.oblige("closing-pass-only-revisits-members-of-the-result", all(x in wantset for x in called), detail="%s root=%r" % (gname, root))
+                paths = eng.explore(harness)
+                ncase += 1
+                res.extend(pyvc.collect(paths, "Grammar._closure_of_item"))
+        # memo state "left behind by an earlier call": for every ordered pair of non-trivial roots (dot before a nonterminal)
+        # the real body runs on r1 and then, with the memo tables as that call left them, on r2
+        nts = {l for l, _ in prods}
+        roots2 = [t for t in all_items if t[1] < len(t[0][1]) and t[0][1][t[1]] in nts]
+        for r1 in roots2:
+            for r2 in roots2:
+                if r1 == r2:
+                    continue
+
+                def harness2(c, r1=r1, r2=r2):
+                    pre, single = {}, {}
+
+                    def rec(interp, obj, item):
+                        t = ((item.production.lhs, tuple(item.production.rhs)), item.dot, item.terminal)
+                        obj.attrs["_closure_of_item_cache"].setdefault(item, {mk(y) for y in closure(t)})
+                        return obj.attrs["_closure_of_item_cache"][item]
+
+                    def first(interp, obj, symbols):
+                        f, eps = first_of(tuple(symbols))
+                        return set(f) | ({None} if eps else set())
+                    attrs = {"_closure_of_item_cache": pre, "_single_level_closure_of_item_cache": single, "_productions_by_lhs": by_lhs, "_item_cache": item_cache}
+                    for k, v in extras.items():
+                        attrs.setdefault(k, v)
+                    me = GObj("grammar", methods={"_closure_of_item": rec, "_first": first}, attrs=attrs)
+                    c.covered = True
+                    pyvc.run_body(c, "compiler.front_end.lr1.Grammar._closure_of_item", [me, mk(r1)])
+                    st, got = pyvc.run_body(c, "compiler.front_end.lr1.Grammar._closure_of_item", [me, mk(r2)])
+                    wantset = {mk(x) for x in closure(r2)}
+                    c.oblige("after-an-earlier-call:closure-is-the-least-closed-set", isinstance(got, set) and got == wantset,
+                             detail="%s first %r then %r: missing %r, extra %r" % (gname, r1, r2, sorted(map(str, wantset - got))[:3] if isinstance(got, set) else "", sorted(map(str, got - wantset))[:3] if isinstance(got, set) else ""))
+                paths = eng.explore(harness2)
+                ncase += 1
+                res.extend(pyvc.collect(paths, "Grammar._closure_of_item"))
+    obs = []
+    for gname, os_ in sorted(per_grammar.items()):
+        by_clause = {}
+        for o in os_:
+            by_clause.setdefault(o.name.rsplit(".", 1)[-1] if "]." not in o.name else o.name.split("].", 1)[1], []).append(o)
+        for clause, group in sorted(by_clause.items()):
+            bad = [o for o in group if o.verdict != core.PROVED]
+            if bad:
+                for o in bad[:3]:
+                    o.name = "Grammar._closure_of_item[%s].%s" % (gname, clause)
+                    obs.append(o)
+            else:
+                obs.append(core.Obligation("Grammar._closure_of_item[%s].%s" % (gname, clause), core.PROVED, "syntactic", round(sum(o.seconds for o in group), 3),
+                                           detail="%d (root item, memo state) cases" % len(group)))
+    return obs, ncase
+
+
+TARGETS["closure_of_item"] = target_closure_of_item
